@@ -562,8 +562,31 @@ func (e *Exec) ApplyOp(tx *bolt.Tx, w *model.Bucket, op Op, writable bool) {
 		if en.B != nil {
 			allowed = append(allowed, berrors.ErrIncompatibleValue)
 		}
-		if e.expectErr(what, c.Delete(), allowed) {
+		mutated := false
+		if op.N == 1 && en.B == nil && writable {
+			// the positioned cursor is kept while the key is overwritten through the bucket
+			val := MkVal(op.VLen, op.VTag)
+			if e.expectErr(what+" (put under a live cursor)", rb.Put(key, val), nil) {
+				mb.M[string(key)] = &model.Entry{Val: val}
+				mutated = true
+			}
+		} else if e.expectErr(what, c.Delete(), allowed) {
 			delete(mb.M, string(key))
+			mutated = writable
+		}
+		if mutated && !e.Failed() {
+			// "you must reposition your cursor after mutating data": Seek is that repositioning, and it must see
+			// the mutation - on the very cursor that was positioned on the key before
+			k2, v2 := c.Seek(key)
+			mk, mv, isB := mb.Cursor().Seek(key)
+			e.Probes["cursor-reseek-after-mutation"]++
+			if !bytes.Equal(k2, mk) || (k2 == nil) != (mk == nil) {
+				e.fail("C05", "cursor-key", "%s: Seek on the same cursor after the mutation returned key %s, model expects %s", what, model.Q(k2), model.Q(mk))
+			} else if mk != nil && !isB && (v2 == nil || !bytes.Equal(v2, mv)) {
+				e.fail("C05", "cursor-value", "%s: Seek on the same cursor after the mutation returned value %s for key %s, model expects %s", what, model.Q(v2), model.Q(k2), model.Q(mv))
+			} else if mk != nil && isB && v2 != nil {
+				e.fail("C05", "cursor-value", "%s: Seek on the same cursor after the mutation returned a value for nested bucket %s", what, model.Q(k2))
+			}
 		}
 	case "feb":
 		var got []string
